@@ -67,3 +67,18 @@ PROP = {
         "design_ref": "DESIGN.md §8 C19",
     },
 }
+# --- round 2 (builder bVALEQ): the two models of value.Equal agree (Props/C19ValueEq.lean)
+PROP["modules"].append("Gnmi.Props.C19ValueEq")
+PROP["theorems"] += ["Gnmi.C19." + t for t in [
+    "valueEqual_eq_equal", "valueEqual_iff_equal", "valueEqual_symm", "valueEqual_sound", "valueEqual_sound_exact",
+    "equal_eq_valueEqual_toVal", "nested_leaflist_limit", "nil_payload_limit", "toPV_image", "floatBitsEq_canon",
+    "hexBytes_inj"]]
+PROP["manifest"]["level_text"] += (
+    " Props/C19ValueEq.lean relates the two models of value.Equal: valueEqual_eq_equal - for every pair of values the cache model can hold, "
+    "PV.equal on the embedded TypedValues (toPV; floats as numeric values, for which LawfulFloatEq is proved) answers exactly "
+    "Cache.valueEqual (the suppression test of C02/C03/C01), never err or panic; equal_symm / equal_sound are transferred to the cache's "
+    "test (valueEqual_symm, valueEqual_sound: suppressed only if same arm and payload, +0/-0 one value, NaN equal to nothing); "
+    "equal_eq_valueEqual_toVal - the wire-ingest translation Wire.toVal preserves Equal for every decoded TypedValue pair without a "
+    "leaf-list inside a leaf-list. Limit, exact and checked against the Go code through the wi component: a nested leaf-list is opaque "
+    "to the cache model (never equal) while Go's Equal recurses (nested_leaflist_limit): the code suppresses an unchanged nested leaf-list, "
+    "the model does not; no generator builds one.")
